@@ -3142,13 +3142,7 @@ class RomanNumeral(Harmony):
             The number of the chord.
         """
         # Corrected step after degree2
-        key_step = re.search(r"[a-gA-G]", self.local_key).group(0)
-        key_alter = (
-            re.search(r"[#b]", self.local_key).group(0)
-            if re.search(r"[#b]", self.local_key)
-            else ""
-        )
-        key_alter = ALT_TO_INT[key_alter]
+        key_step, key_alter = _step_alter_from_name(self.local_key)
         try:
             interval = (
                 Roman2Interval_Min[self.secondary_degree]
@@ -3180,9 +3174,7 @@ class RomanNumeral(Harmony):
 
     def find_bass_note(self):
         # TODO add support for diminished and augmented chords
-        step = re.search(r"[a-gA-G]", self.root).group(0)
-        alter = re.search(r"[#b]", self.root)
-        alter = ALT_TO_INT[alter.group(0)] if alter else 0
+        step, alter = _step_alter_from_name(self.root)
 
         if self.inversion == 1:
             if self.primary_degree.islower():
@@ -6130,6 +6122,20 @@ def is_a_within_b(a, b, wholly=False):
     return contained
 
 
+def _step_alter_from_name(name):
+    """Letter and alteration of a key or note name such as "Eb", "e-", "F##".
+
+    The first character among a-g / A-G is the letter; only what follows it is
+    read as accidentals ("#" raises, "b" or "-" lowers), so the letter of B minor
+    ("b") is not taken for a flat.
+    """
+    match = re.search(r"[a-gA-G]", name)
+    step = match.group(0)
+    accidentals = name[match.end():]
+    alter = accidentals.count("#") - accidentals.count("b") - accidentals.count("-")
+    return step, alter
+
+
 def process_local_key(loc_k_text, glob_k_text, return_step_alter=False):
     local_key_sharps = loc_k_text.count("#")
     local_key_flats = loc_k_text.count("b")
@@ -6150,14 +6156,7 @@ def process_local_key(loc_k_text, glob_k_text, return_step_alter=False):
     transposition_interval = transposition_interval.change_quality(
         local_key_sharps - local_key_flats
     )
-    key_step = re.search(r"[a-gA-G]", glob_k_text).group(0)
-    key_alter = (
-        re.search(r"[#b]", glob_k_text).group(0)
-        if re.search(r"[#b]", glob_k_text)
-        else ""
-    )
-    key_alter = key_alter.replace("b", "-")
-    key_alter = ALT_TO_INT[key_alter]
+    key_step, key_alter = _step_alter_from_name(glob_k_text)
     key_step, key_alter = transpose_note(key_step, key_alter, transposition_interval)
     if return_step_alter:
         return key_step, key_alter
@@ -6238,12 +6237,7 @@ def process_local_key(loc_k, glob_k, return_step_alter=False):
     transposition_interval = transposition_interval.change_quality(
         local_key_sharps - local_key_flats
     )
-    key_step = re.search(r"[a-gA-G]", glob_k).group(0)
-    key_alter = (
-        re.search(r"[#b]", glob_k).group(0) if re.search(r"[#b]", glob_k) else ""
-    )
-    key_alter = key_alter.replace("b", "-")
-    key_alter = ALT_TO_INT[key_alter]
+    key_step, key_alter = _step_alter_from_name(glob_k)
     key_step, key_alter = transpose_note(key_step, key_alter, transposition_interval)
     if return_step_alter:
         return key_step, key_alter
